@@ -96,6 +96,18 @@ def hostile_id_histories(s, n):
                 cur = ev['post_xml']
 
 
+def ran_to_the_end(s, mc, docs):
+    """What the one-by-one fold reaches after the long run of failing messages (the story appended after it,
+    the completion) the collection has reached too."""
+    from .. import events as EV
+    fold_text, n_failed, ferr, applied = K.hand_fold(s, docs, False)
+    EV.drain()
+    if ferr is not None:
+        return True
+    got = str(mc)
+    return ('after-the-run' in got) == ('after-the-run' in fold_text) and ('<mosromgrmeta>' in got) == ('<mosromgrmeta>' in fold_text)
+
+
 def nonstrict_collections(s, n):
     for c in range(n):
         if not s.mine(c):
@@ -111,6 +123,19 @@ def nonstrict_collections(s, n):
             kind = K.weighted_kinds(rng, K.kind_weights(1, 1, 0.3, 0.03))
             docs.append(gen.rand_message(rng, state, kind, 10 + k, ids, pool=pool, timing=rng.choice(['any', 'none']),
                                          shape_weights=(0.4, 0.3, 0.25, 0.05), selfref=0.3, blank_carried=0.15))
+        if c % 4 == 1:
+            # a long run of consecutive failing messages (edits that keep arriving for a story that is gone),
+            # then messages that merge again: however many fail in a row, the merge runs to the end
+            run_len = rng.choice([9, 10, 11, 12, 25, 60])
+            for j_ in range(run_len):
+                docs.append(rng.choice([
+                    B.msg_doc('roItemInsert', 200 + j_, story_ref='gone-story', target=B.BLANK, carried=[B.item('g%d' % j_, 'x')]),
+                    B.msg_doc('roStoryMove', 200 + j_, ids=['gone-story'], target=B.BLANK),
+                    B.msg_doc('roItemReplace', 200 + j_, story_ref='gone-story', target='g', carried=[B.item('g%d' % j_, 'x')]),
+                    B.msg_doc('EAStorySwap', 200 + j_, ids=['gone-story', 'gone-too'])]))
+            docs.append(B.msg_doc('roStoryAppend', 400, carried=[gen.simple_story('after-the-run', 1)]))
+            docs.append(B.msg_doc('roDelete', 401))
+            s.hist['collections_with_a_long_failing_run'] += 1
         if rng.random() < 0.25 and len(docs) > 2:
             # two different messages share one messageID (applied in the order supplied)
             import re as _re
@@ -133,6 +158,10 @@ def nonstrict_collections(s, n):
             s.custom_violation('non-strict-merge-did-not-run-to-the-end',
                                {'exc': [x.__name__ for x in type(merr).__mro__][:2], 'msg': str(merr)[:200]},
                                {'type': 'collection', 'docs': docs, 'strict': False}, status='non-strict')
+        elif mc is not None and c % 4 == 1 and not ran_to_the_end(s, mc, docs):
+            s.custom_violation('non-strict-merge-did-not-run-to-the-end',
+                               {'exc': None, 'note': 'messages after a long run of failing ones were not merged'},
+                               {'type': 'collection', 'docs': docs, 'strict': False, 'after_run': True}, status='non-strict')
 
 
 def run(s):
@@ -175,6 +204,8 @@ def replay(s, data):
         mc, cerr, merr, wl = K.collection_merge(s, w['docs'], False)
         if merr is not None:
             s.custom_violation('non-strict-merge-did-not-run-to-the-end', {'exc': type(merr).__name__}, w)
+        elif w.get('after_run') and mc is not None and not ran_to_the_end(s, mc, w['docs']):
+            s.custom_violation('non-strict-merge-did-not-run-to-the-end', {'exc': None}, w)
         return
     K.replay_transition(s, data)
 
